@@ -5,7 +5,6 @@
 package main
 
 import (
-	"bufio"
 	"context"
 	"encoding/json"
 	"errors"
@@ -308,11 +307,15 @@ func readMergedReports(ctx context.Context, fileName string, s *storage.API) ([]
 	}
 	defer in.Close()
 
+	// Note: the merged file holds one JSON report per line, but a line can
+	// be longer than bufio.Scanner's default 64KiB token limit (reports may
+	// be as large as the upload size limit), so decode the stream instead
+	// of scanning it line by line.
 	var reports []telemetry.Report
-	scanner := bufio.NewScanner(in)
-	for scanner.Scan() {
+	dec := json.NewDecoder(in)
+	for dec.More() {
 		var report telemetry.Report
-		if err := json.Unmarshal(scanner.Bytes(), &report); err != nil {
+		if err := dec.Decode(&report); err != nil {
 			return nil, err
 		}
 		reports = append(reports, report)
